@@ -12,6 +12,16 @@ ALL = [f"C{i:02d}" for i in range(1, 21)]
 
 # property -> (category, technique, level text, level note, design ref)
 CHECKS = {
+    "C09": ("exploration",
+            "stateful property testing (rapid) of all nine joins over fake API servers and typed base controllers; oracle = reference selection (C19 ownership predicates) over the servers' state, strict mirror, readiness, goroutine footprint and base liveness after Close",
+            "For a join drawn per case the harness owns both (three for IngressPods) API servers, gates the bases' first lists in generated combinations, interleaves source and destination histories, and cycles create/close of joins over long-lived bases. After a destination-side double marker the join cache must converge on its own to the reference selection; after a source-side probe barrier the strict mirror of its events must equal its cache; the join must not be ready or emit before both bases are ready; closing it must bring the count of library-created goroutines back to the bases' own footprint and leave each base delivering fresh events.",
+            "RCPods is exercised in a single namespace because of the recorded C19 finding; a first differing comparison is given the wedge bound to converge (quiescent-state property).",
+            "DESIGN.md section 4, C09"),
+    "C20": ("translation_validation",
+            "template re-instantiation + structural AST comparison (source), typed-vs-untyped differential execution of generated scenarios against a shared reference model (behaviour), request-path differential against the API conventions over loopback HTTP (clients)",
+            "The generated typed packages and joins are treated as outputs of a translation (template + type -> source): the harness re-executes every instantiation listed in the Makefile and compares ASTs declaration by declaration; behaviourally the same generated scenarios run through each typed package and through the untyped core and must agree with each other and with the reference model, with foreign-typed objects skipped rather than crashing; each typed client's List/Watch requests are compared with the API-conventions table and its list response must decode to the right type.",
+            "Instantiation is re-implemented in the harness (identifier substitution / text/template execution), goimports' import block is ignored; behaviour is sampled (rapid), source and the 12x2 request table are complete.",
+            "DESIGN.md section 4, C20"),
     "C03": ("fault_enumeration",
             "property-based fault injection (rapid-generated server histories, watch fault plans and list schedules against a fake API server with gated lists and held Watch calls); oracle = per-key allowed-set at every completed relist + strict subscriber mirror + exact convergence after one final relist",
             "The harness owns the client: it decides when each list returns and with which snapshot (taken at call or at release), what the watch delivers, drops, duplicates or injects, and it holds the Watch call that follows each applied list so that the cache can be inspected exactly at the completion of that relist. Every key must hold a value from the allowed set derived from the list and the in-flight events, the unfiltered subscriber's strict mirror must converge to the cache, and once the server stops changing one further relist must give exact equality — also with a watch that never connects.",
